@@ -36,8 +36,12 @@ def gen_case(rng):
     mode = rng.random()
     if mode < 0.25 and n:
         call["fail"] = {str(rng.randrange(n)): ["Boom", "t0"]}
-    elif mode < 0.35 and case["return_as"] != "list":
+    elif mode < 0.6 and case["return_as"] != "list":
         call["close_after"] = rng.randint(0, min(n, 12))
+        call["close_other"] = rng.random() < 0.5          # the generator is closed by another thread than the caller's
+        if call["close_other"] and rng.random() < 0.5 and n > 3:
+            # ... while the input is in the middle of producing item j for a completion callback (a slow input iterable)
+            call["close_at_pull"] = rng.randint(2, min(n - 1, 12))
     case["calls"] = [call]
     if rng.random() < 0.2:
         m = rng.randint(0, 8)
@@ -65,7 +69,45 @@ def consumer(w, s, p, c, gen, rec):
             rec["values"].append(next(gen))
         except StopIteration:
             break
-    gen.close()
+    if call.get("close_other"):
+        done = []
+        started = []
+
+        def closer():
+            s.yp("close_other")
+            gen.close()
+            # close() has returned in the foreign thread: from here on nothing may be taken or dispatched ...
+            pc.mark_over(w, rec)
+            done.append(1)
+        def start_closer():
+            if not started:
+                started.append(1)
+                s.spawn("closer%d" % w.next_pool_index(), closer, role="closer")
+        j = call.get("close_at_pull")
+        if j is not None and w.pulled[c] <= j:
+            def hook(w_, s_, c_, i_):
+                me = s_.me()
+                if me is not None and me.name != "main" and not started:
+                    w_.probes["foreign_close_while_input_is_mid_slice"] += 1
+                    start_closer()
+                    for _ in range(400):          # the input is slow: give the closing thread every chance to finish first
+                        if done:
+                            break
+                        s_.yp("slow_input")
+            w.pull_hooks[(c, j)] = hook
+            for _ in range(2000):
+                if started:
+                    break
+                s.sleep(0.005)
+        start_closer()
+        while not done:
+            s.sleep(0.001)
+        # ... and joblib's helper thread finishes the abort in the background: wait for it before the object is reused
+        while any(x.role.startswith("GeneratorExitThread") and s.alive(x) for x in s.threads):
+            s.sleep(0.01)
+        w.probes["closed_by_foreign_thread"] += 1
+    else:
+        gen.close()
     rec["closed"] = True
     rec["outcome"] = {"kind": "closed", "t": s.now}
 
